@@ -12,6 +12,7 @@
 EXTENDS Simd
 CONSTANTS Tier          \* "quick" | "thorough"
 VARIABLE c
+MK == INSTANCE Mask            \* L2 model of the mask pipeline: its table of declared mask widths travels with the plan (drift report)
 Seed == atoi(IOEnv.VERIF_SEED)
 Quick == Tier = "quick"
 
@@ -34,7 +35,7 @@ OpForms ==
     ({"neg", "pos", "abs", "sqrt", "rcp", "rsqrt", "crcp", "conj", "real", "imag", "norm", "reverse", "sum", "product", "dot", "minimum", "maximum",
       "ctor0", "ctor_b", "asg_b", "set1", "setn", "setseq", "bcast_ptr", "copy", "asg_v", "index", "aload", "astore"} \X {"-"}) \cup
     (FmaOps \X {"-"}) \cup ({"min", "max"} \X {"vv", "vs", "sv"}) \cup (CmpOps \X {"vv", "vs", "sv"}) \cup
-    ({"ctor_ld", "load", "store"} \X {"u", "a", "d"}) \cup ({"mload"} \X {"zu", "pu", "pa", "pd"}) \cup ({"mstore"} \X {"u", "a", "d"}) \cup
+    ({"ctor_ld", "load", "store"} \X {"u", "a", "d"}) \cup ({"mload"} \X {"zu", "pu", "pa", "pd", "gp"}) \cup ({"mstore"} \X {"u", "a", "d", "gp"}) \cup
     ({"index"} \X {"b"}) \cup ({"cast"} \X {"f32", "f64", "i32", "i64"})
 
 \* What the library offers (established by compiling every form for every pair under SSE2, AVX2+FMA and AVX-512: a
@@ -70,13 +71,14 @@ Modes(T, op, f) ==
 
 \* data generator of the recorder (c08::Gen) and value range
 GenOf(T, op, f, mode) ==
-    CASE op = "div" -> (IF IsIntT(T) THEN 1 ELSE IF mode = "bits" THEN 0 ELSE IF f = "sv" THEN 3 ELSE 2)
+    CASE op = "div" -> (IF IsIntT(T) THEN 1 ELSE IF mode = "bits" THEN 0 ELSE IF f = "sv" THEN 3 ELSE IF f = "rv" THEN 10 ELSE 2)
       [] op = "sqrt" -> (IF mode = "bits" THEN 0 ELSE 4)
       [] op = "product" -> (IF mode = "bits" THEN 0 ELSE 5)
       [] op = "rsqrt" -> 6 [] op = "rcp" -> 7 [] op = "crcp" -> 9
       [] OTHER -> 0
 RangeOf(op, f) == CASE op \in {"mul", "dot", "norm"} \cup FmaOps -> 30 [] op = "div" -> 100 [] OTHER -> 1000
-IterOf(op, f) == CASE op \in {"mload", "mstore"} -> 2 [] op \in {"ctor_ld", "load", "store"} /\ f = "u" -> 1 [] OTHER -> 0
+IterOf(op, f) == CASE op \in {"mload", "mstore"} /\ f = "gp" -> 3      \* remainder masks 2^r - 1, r = 0..N, with lanes >= r inside a PROT_NONE page
+                   [] op \in {"mload", "mstore"} -> 2 [] op \in {"ctor_ld", "load", "store"} /\ f = "u" -> 1 [] OTHER -> 0
 AlignedOf(op, f) == IF f \in {"a", "d", "pa"} /\ op \in {"ctor_ld", "load", "store", "mload", "mstore"} /\ ~(op \in {"mload", "mstore"} /\ f \in {"d"}) THEN 1
                     ELSE IF op \in {"aload", "astore"} THEN 1 ELSE 0
 UsesOf(op, f) == CASE op \in {"mload", "mstore"} -> "mask" [] IterOf(op, f) = 1 -> "off" [] OTHER -> "none"
@@ -93,13 +95,14 @@ MaskSet(N, f, salt) ==
     ELSE Prefix(16) \cup {MHash(k, salt) : k \in 1..(IF Quick /\ f \notin {"pu", "u"} THEN 16 ELSE 47)}
 Salt(T, abi, f) == (CHOOSE i \in 1..6 : <<"f32", "f64", "i32", "i64", "c32", "c64">>[i] = T) * 11 +
                    (CHOOSE i \in 1..5 : <<"scalar", "sse", "avx", "avx512", "fixed">>[i] = abi) * 3 +
-                   (CHOOSE i \in 1..7 : <<"zu", "pu", "pa", "pd", "u", "a", "d">>[i] = f)
+                   (CHOOSE i \in 1..8 : <<"zu", "pu", "pa", "pd", "u", "a", "d", "gp">>[i] = f)
 
 Cases ==
     UNION { UNION { { [T |-> p[1], abi |-> p[2], n |-> p[3], N |-> LaneCount(p[1], p[2], p[3]), op |-> of[1], form |-> of[2], mode |-> m[1], sc |-> m[2],
                        osc |-> OutScale(of[1], m[2]), gen |-> GenOf(p[1], of[1], of[2], m[1]), range |-> RangeOf(of[1], of[2]),
+                       mbits |-> (IF p[2] \in {"sse", "avx", "avx512"} THEN MK!DeclBits(p[1], p[2]) ELSE 8),
                        ndraw |-> NDraw(of[1], of[2], m[1]), iter |-> IterOf(of[1], of[2]), aligned |-> AlignedOf(of[1], of[2]),
-                       masks |-> IF of[1] \in {"mload", "mstore"}
+                       masks |-> IF of[1] \in {"mload", "mstore"} /\ of[2] # "gp"
                                  THEN SetToSortSeq(MaskSet(LaneCount(p[1], p[2], p[3]), of[2], Salt(p[1], p[2], of[2])), LAMBDA x, y : x < y) ELSE <<>>]
                      : m \in Modes(p[1], of[1], of[2]) }
                    : of \in {x \in OpForms : Offered(p[1], p[2], LaneCount(p[1], p[2], p[3]), x[1], x[2])} }
